@@ -616,6 +616,12 @@ struct Exec {
 		// "10" becomes "1") and resize: "needs no new storage" is only known for the stream as it was written
 		bool const cut_load = op.kind == O_LOAD && fired && !eff.viewwrite[0];  // (a load into a view never resizes, cut or not)
 		if(eff.expect_no_alloc && !cut_load && (ev[E_ALLOC] != 0 || ev[E_DEALLOC] != 0)) fail("P-allocated", eff.variant + " performed " + std::to_string(ev[E_ALLOC]) + " allocation(s) and " + std::to_string(ev[E_DEALLOC]) + " deallocation(s); it needs no new storage");
+		// the global heap seam (main.cpp): an operation that needs no new storage has no business in the global operator new either
+		// (a buffer in a std::vector, a temporary over std::allocator); only for element types that own no heap state themselves and
+		// for backends without archives or MPI, whose libraries allocate on their own account
+		if constexpr((ET::tracked || ET::trivial || std::is_same_v<E, Semi>) && !Cfg::serialization && !Cfg::mpi) {
+			if(eff.expect_no_alloc && !W.heap_route && W.heap_allocs_in_op != 0) fail("P-allocated", eff.variant + " called the global operator new " + std::to_string(W.heap_allocs_in_op) + " time(s); it needs no new storage");
+		}
 		if(eff.expect_no_elem_events && !threw) {
 			int const n = ev[E_DCTOR] + ev[E_CCTOR] + ev[E_MCTOR] + ev[E_CASSIGN] + ev[E_MASSIGN] + ev[E_CONV] + ev[E_DTOR];
 			if(n != 0) fail("P-element-events", eff.variant + " caused " + std::to_string(n) + " element construction/assignment/destruction event(s); it must not touch elements");
@@ -653,6 +659,7 @@ struct Exec {
 		bool done = false;
 		for(auto& c : W.fcnt) c = 0;
 		for(auto& c : W.ev) c = 0;
+		W.heap_allocs_in_op = 0;
 		try {
 			done = run_real(op);
 		} catch(injected_fault const&) {
